@@ -180,8 +180,18 @@ def cost_guard(name, hs, spans, kind, pos, mut):
             nums = [int(x) for x in re.findall(r"\d+", mut[max(0, a - 2):b + 3]) if len(x) < 12] or [0]
             orig = [int(x) for x in re.findall(r"\d+", hs[a:b])] or [0]
             big = max(nums)
-            if "bcrypt" in name or name in ("scrypt", "phpass") or name.endswith("bsdi_crypt") or name == "fshp":
-                # exponential / packed cost fields: only verify when the field is textually unchanged
+            if "bcrypt" in name or (name == "scrypt" and not hs.startswith("$7$")):
+                # exponential decimal cost fields: decode the mutated field leniently (as int() would) and verify only if
+                # every number in it stays <= the original + 1
+                d = len(mut) - len(hs)
+                fld = mut[max(0, a - 1):b + 1 + max(d, 0)]
+                try:
+                    vals = [int(x) for x in re.split(r"[$,=a-z]+", fld) if x.strip() != "" and not re.fullmatch(r"2[abxy]?", x)]
+                except ValueError:
+                    return True   # not a number for int() either: cannot become a cost
+                return all(v <= max(orig) + 1 for v in vals) and len(fld) < 24
+            if name in ("scrypt", "phpass") or name.endswith("bsdi_crypt") or name == "fshp":
+                # packed cost fields: only verify when the field is textually unchanged
                 return mut[a:b] == hs[a:b] and len(mut) == len(hs)
             if name in ("cta_pbkdf2_sha1", "dlitz_pbkdf2_sha1"):
                 try:
@@ -320,9 +330,13 @@ def edit_class(hs, mut, kind, pos, fcls="field"):
     return "malformed-accepted"
 
 
-def run_one(run, name, h, ctxobj, hs, pw, ctx, spans, kind, pos, mut, form):
+def run_one(run, name, h, ctxobj, hs, pw, ctx, spans, kind, pos, mut, form, raw=None):
     bname = H.base_name(h)
-    inp = mut if form == "str" else mut.encode("utf-8")
+    if raw is not None:
+        inp = raw
+        mut = raw.decode("latin-1")
+    else:
+        inp = mut if form == "str" else mut.encode("utf-8")
     w = dict(hasher=name, original=hs, mutant=inp, edit=kind, position=pos, form=form)
     rp = f"import warnings; warnings.simplefilter('ignore')\nimport passlib.hash as H\nm={inp!r}\n"
     # identify
@@ -434,6 +448,13 @@ def work(run, names):
                 run_one(run, name, h, ctxobj, hs, pw, ctx, spans, kind, pos, mut, form)
                 n += 1
                 run.evaluations += 1
+            # bytes-only mutants: one byte replaced by a byte that is not valid UTF-8
+            raw = hs.encode("utf-8")
+            for i in range(len(raw)):
+                for bad in (0xFF, 0x91) if i % 4 == 0 else (0xFF,):
+                    run_one(run, name, h, ctxobj, hs, pw, ctx, spans, "subst-invalid-utf8", i, None, "rawbytes", raw=raw[:i] + bytes([bad]) + raw[i + 1:])
+                    run.evaluations += 1
+            run.distinct.add(f"{name}|seed{si}|subst-invalid-utf8")
             run.distinct.add(f"{name}|seed{si}|one-edit-neighbourhood|{len(hs)}")
             for k in ("subst", "delete", "insert", "truncate"):
                 run.distinct.add(f"{name}|seed{si}|{k}")
